@@ -121,7 +121,11 @@ CHECKS = {
    technique="Coq proof of the timer protocol as a state machine under all interleavings + Coq proof about solve/solve_all under all flag schedules (Properties/C23.v) + hook-driven model-vs-implementation correspondence (flag schedule, protocol steps) + reference-search prefix oracle"),
 
  "C21": dict(
-   text="Machine-checked theorems about the model of src/rule_reader.rs (after six repairs): for every list of rule "
+   text="END TO END (C21_closed_load, Properties/C21.v): a knowledge base of closed rules (the class of C19) printed rule by rule with "
+        "Display and written to a file under any legal layout that leaves the spacing of the texts unchanged - line breaks after "
+        "`, ` `; ` ` = ` ` :- `, any indentation, blank lines, # % // comments - is loaded by load_kb_from_file with the REAL parse_rule as "
+        "exactly that knowledge base (add_rules over the same rules, no error); a break that changes the spacing can change the rule "
+        "(`p(-`/`5).` loads the atom `- 5`: compiled witness). Machine-checked theorems about the model of src/rule_reader.rs (after six repairs; Properties/C21base.v): for every list of rule "
         "texts that each contain exactly one rule end - a period outside ( ) [ ] and quotes that is not a decimal point "
         "- as their last character and no comment delimiter outside ( ) [ ] and quotes, and every layout that breaks "
         "lines only after - , ; = outside quotes, with any indentation, blank lines and # % // comments outside brackets, "
@@ -132,7 +136,7 @@ CHECKS = {
         "the loaded rules equal the rules parsed one by one is checked on the implementation itself on every generated "
         "file. Texts with backslash-escaped brackets or brackets between quotes are outside the claim (known finding).",
    ref="7/C21",
-   technique="Coq proof of model vs SpecLoad.render/expected (Properties/C21.v) + model-vs-implementation correspondence "
+   technique="Coq end-to-end proof of file loading for closed rules with the real parsers + Coq proof of model vs SpecLoad.render/expected (Properties/C21.v) + model-vs-implementation correspondence "
              "via extraction + implementation-only oracle load_kb_from_file = parse_rule each"),
 
  "C01": dict(
